@@ -5,6 +5,7 @@ import CobyqaVerif.Model.Settings
 import CobyqaVerif.Model.Radius
 import CobyqaVerif.Model.Constraints
 import CobyqaVerif.Model.Reduce
+import CobyqaVerif.Model.StepSpec
 import CobyqaVerif.Gen.Settings
 /-!
 Line-protocol driver: `lake env lean --run Driver.lean < requests > answers`.
@@ -357,6 +358,69 @@ def doAxis (vals : List Nat) : String :=
   | _ => "bad-op"
 end reduce
 
+/-! ## subproblem solvers: exact evaluation of the admissibility / no-worse predicates (C15, C16) -/
+section stepspec
+open Cobyqa
+
+def ratB (b : Nat) : Rat := ratOfBits b
+def limR (b : Nat) : Lim Rat :=
+  match limOfBits b with | .fin _ => .fin (ratOfBits b) | .nan => .nan | .ninf => .ninf | .pinf => .pinf
+
+def chunk (l : List Nat) (k : Nat) : List (List Nat) :=
+  if k = 0 then [] else
+  let rec go (l : List Nat) (fuel : Nat) : List (List Nat) :=
+    match fuel, l with
+    | 0, _ => []
+    | _, [] => []
+    | f + 1, l => l.take k :: go (l.drop k) f
+  go l (l.length + 1)
+
+/-- `stepspec kind n mub meq | g(n) H(n*n) xl(n) xu(n) aub(mub*n) bub(mub) aeq(meq*n) beq(meq) delta rtol const step(n) tolq tolub(mub) toleq(meq)`
+kind: 0 tangential (model not increased), 1 constrained tangential, 2 normal (violation not increased),
+3 geometry (|q| not decreased) -/
+def doStepSpec (hdr vals : List Nat) : String :=
+  match hdr with
+  | [kind, n, mub, meq] =>
+    let need := n + n * n + n + n + mub * n + mub + meq * n + meq + 3 + n + 1 + mub + meq
+    if vals.length ≠ need then s!"bad-op {vals.length} {need}" else
+    let take := fun (l : List Nat) (k : Nat) => (l.take k, l.drop k)
+    let (g, r) := take vals n
+    let (h, r) := take r (n * n)
+    let (xl, r) := take r n
+    let (xu, r) := take r n
+    let (au, r) := take r (mub * n)
+    let (bu, r) := take r mub
+    let (ae, r) := take r (meq * n)
+    let (be, r) := take r meq
+    let (sc, r) := take r 3
+    let (st, r) := take r n
+    let (tq, r) := take r 1
+    let (tu, r) := take r mub
+    let (te, _) := take r meq
+    let g := g.map ratB
+    let H := (chunk h n).map (·.map ratB)
+    let xl := xl.map limR
+    let xu := xu.map limR
+    let aub := (chunk au n).map (·.map ratB)
+    let bub := bu.map ratB
+    let aeq := (chunk ae n).map (·.map ratB)
+    let beq := be.map ratB
+    let delta := ratB (sc.getD 0 0)
+    let rtol := ratB (sc.getD 1 0)
+    let const := ratB (sc.getD 2 0)
+    let s := st.map ratB
+    let tolq := ratB (tq.getD 0 0)
+    if !inBox xl xu s then "fail bounds"
+    else if !inBall s delta rtol then "fail radius"
+    else if kind = 1 && !ineqKept aub bub (tu.map ratB) s then "fail inequality"
+    else if kind = 1 && !eqKept aeq (te.map ratB) s then "fail null-space"
+    else if (kind = 0 || kind = 1) && !(decide (qmodel g H s ≤ tolq)) then "fail model-increased"
+    else if kind = 2 && !(decide (violSq aub bub aeq beq s ≤ violSq aub bub aeq beq (s.map fun _ => 0) + tolq)) then "fail violation-increased"
+    else if kind = 3 && !(decide (absR const - tolq ≤ absR (const + qmodel g H s))) then "fail magnitude-decreased"
+    else "ok"
+  | _ => "bad-op"
+end stepspec
+
 def handle (line : String) : String :=
   match line.splitOn "|" with
   | [h, v] =>
@@ -373,6 +437,7 @@ def handle (line : String) : String :=
         | "filter" => doFilter hdr vals
         | "spec03" => doSpec03 hdr vals
         | "scan" => doScan hdr vals
+        | "stepspec" => doStepSpec hdr vals
         | "buildx" => doBuildX hdr vals
         | "axis" => doAxis vals
         | "splitlin" => doSplitLin vals
